@@ -248,6 +248,8 @@ func concRun(c *ev.Ctx, progs []goosegen.ConcProgram, prefix, mod string) (check
 				bad = fmt.Sprintf("the Go result does not depend on the schedule (%v) but the emitted program has several outcomes %v", gs, ts)
 			case p.Deterministic && !reflect.DeepEqual(gs, ts):
 				bad = fmt.Sprintf("outcome sets differ: Go %v, model %v", gs, ts)
+			case len(p.Allowed) > 0 && !allowedOnly(T, p.Allowed):
+				bad = fmt.Sprintf("the emitted program can produce %v, but whatever the schedule Go produces one of %v (sampled: %v)", ts, p.Allowed, gs)
 			case (p.Deterministic || p.Terminates) && liveViolated:
 				bad = "some fair interleaving of the emitted program never finishes (a thread spins forever): TLC reports a lasso violating <>Finished"
 			}
@@ -258,6 +260,22 @@ func concRun(c *ev.Ctx, progs []goosegen.ConcProgram, prefix, mod string) (check
 		}
 	}
 	return checked, totalStates, outcomesEv, true
+}
+
+// allowedOnly: every outcome of T is the rendering of one of the allowed integers.
+func allowedOnly(T map[string]bool, allowed []uint64) bool {
+	for t := range T {
+		ok := false
+		for _, a := range allowed {
+			if strings.Trim(t, "\"") == fmt.Sprintf("int:%d", a) {
+				ok = true
+			}
+		}
+		if !ok {
+			return false
+		}
+	}
+	return true
 }
 
 func subset(a, b map[string]bool) bool {
